@@ -53,7 +53,18 @@ ALPHA = {
     "begin": ("begin", {"!tx"}, {"tx"}, set()),
     "commit": ("commit", {"tx"}, set(), {"tx"}),
     "rollback": ("rollback", {"tx"}, set(), {"tx"}),
+    # the same through the connection's methods (the session's one long-lived cursor does not see these statements)
+    "commit()": ("CALL:commit", {"tx"}, set(), {"tx"}),
+    "rollback()": ("CALL:rollback", {"tx"}, set(), {"tx"}),
 }
+# deeper histories run in both tiers: a transaction ended by a connection method, then statements the library carries out
+# in several steps on the cursor that began it (every kill point inside them)
+EXPLICIT = [
+    ["create_t1", "begin", "commit()", "merge_t1"],
+    ["create_t1", "begin", "insert_t1", "rollback()", "comment_t1"],
+    ["begin", "rollback()", "create_t1"],
+    ["create_t1", "begin", "insert_t1", "commit()", "rename_t1"],
+]
 QUICK_FIRST = ["create_t1", "create_plain", "create_db2", "begin", "create_schema", "executemany_fail", "failing_select", "fail_create_multi"]
 EXPECT_ERROR = {"failing_select", "executemany_fail", "fail_create_multi", "fail_comment"}
 
@@ -85,6 +96,8 @@ def histories(depth, tier):
                         continue
                     if tier == "quick" and d == 1 and sid in ("create_plain", "create_schema") and h[0] != "begin":
                         continue
+                    if tier == "quick" and d == 1 and sid == "rollback()":
+                        continue
                     if tier == "quick" and d == 1 and (sid == "fail_comment" or (sid == "fail_create_multi" and h[0] not in ("begin", "create_t1"))):
                         continue
                     nh = h + [sid]
@@ -99,7 +112,7 @@ def in_tx_before_last(h):
     for sid in h[:-1]:
         if sid == "begin":
             tx = True
-        elif sid in ("commit", "rollback"):
+        elif sid in ("commit", "rollback", "commit()", "rollback()"):
             tx = False
     return tx
 
@@ -151,7 +164,7 @@ def clean_node(item, acc: core.Acc, tier):
         return {"history": h, "mode": mode, "calls": 0, "log": [], "obs": None, "broken": True}
     acc.obs((h, mode, rc, res["calls_last"], repr(strip(obs))))
     acc.outcome((mode, rc, core.h(repr(strip(obs)))))
-    intx = (in_tx_before_last(h) and last not in ("commit", "rollback")) or last == "begin"
+    intx = (in_tx_before_last(h) and last not in ("commit", "rollback", "commit()", "rollback()")) or last == "begin"
     cls = f"exit={mode},last={last},in_tx={'y' if intx else 'n'}"
     if problems:
         acc.violation("C18.reopen_works", cls, {"problems": problems}, rp)
@@ -159,7 +172,7 @@ def clean_node(item, acc: core.Acc, tier):
         acc.violation("C18.committed_survives_exit", cls, {"diff": _diff(res["pre_exit"], strip(obs))}, rp)
     # outside a transaction every acknowledged statement is committed at once: an independent connection must see
     # exactly what the session itself sees (otherwise the work sits in a transaction nobody asked for and is lost)
-    open_tx = (in_tx_before_last(h) and last not in ("commit", "rollback")) or last == "begin"
+    open_tx = (in_tx_before_last(h) and last not in ("commit", "rollback", "commit()", "rollback()")) or last == "begin"
     if mode == "clean" and not open_tx and res.get("own_view") is not None and res["own_view"] != res["pre_exit"]:
         acc.violation(
             "C18.autocommit_is_committed", f"history_has={'+'.join(sorted(set(x for x in h if x in EXPECT_ERROR or x.startswith('executemany')))) or 'plain'},last={last}",
@@ -294,6 +307,12 @@ def memory_control(item, acc: core.Acc, tier):
 def run(ctx: core.Ctx):
     depth = 2 if ctx.quick else 3
     hs = histories(depth, ctx.tier)
+    have = {tuple(h) for h in hs}
+    for e in EXPLICIT:
+        for h in [e[:i] for i in range(1, len(e) + 1)]:
+            if tuple(h) not in have:
+                have.add(tuple(h))
+                hs.append(h)
     ctx.rule = (
         "trie of statement histories (BFS over the alphabet in the module, enabledness from a fact model) up to the depth "
         "bound; per history 4 exit modes (clean with, exception, sys.exit, os._exit) in fresh interpreters compared "
@@ -310,7 +329,7 @@ def run(ctx: core.Ctx):
         n = nodes[tuple(h)]
         present = n["obs"]
         absent = nodes[tuple(h[:-1])]["obs"] if h else None
-        if in_tx_before_last(h) and h[-1] not in ("commit",):
+        if in_tx_before_last(h) and h[-1] not in ("commit", "commit()"):
             # uncommitted work: present == absent == committed state; both come from clean exits (implicit rollback)
             pass
         if n.get("broken") or (h and nodes[tuple(h[:-1])].get("broken")):
